@@ -361,7 +361,28 @@ def check_routing(prop, tier, seed, replay):
             # recorded with every event of every layer: the routing events go to RoutingTrace, the complete
             # trace to GorumsTrace (the composition: ids, issue loops, request flow, handlers, collection, outcomes)
             trace_all = os.path.join(work, "trace-all-%d.ndjson" % sb)
-            p = drive_prog(progs, trace_all, stats, seed + sb, maxp, sb, "all", 1)
+            if len3:
+                # thorough tier: 40000 programs go to RoutingTrace; a sample of 4000, recorded with the complete
+                # alphabet in a run of its own, goes to GorumsTrace (the complete traces of all would be ~1 GB)
+                p0 = drive_prog(progs, trace_all, stats, seed + sb + 7, 4000, sb, "all", 1)
+                if p0.returncode != 0:
+                    raise Infra("driver failed:\n" + p0.stdout[-3000:])
+                import check_sys
+                gbad0, gsecs0, gts0 = validate(trace_all, "GorumsTrace", check_sys.TCFG, shards, work)
+                tstates += gts0
+                sysprog_sections += len(gsecs0)
+                sysprog_events += sum(len(x) for x in gsecs0)
+                for t, ev, rec in sorted(gbad0, key=lambda b: b[0])[:3]:
+                    if ev in ("ProgEnd", "Routers"):
+                        continue
+                    sec = section(gsecs0, t)
+                    path = next_replay_path(prop)
+                    json.dump({"property": prop, "prog": json.loads(sec[0])["prog"], "sendbuf": sb, "rejected_event": "Gorums:" + ev,
+                               "rejected": rec}, open(path, "w"), indent=1)
+                    reported.append(path)
+                    allbad += 1
+                os.remove(trace_all)
+            p = drive_prog(progs, trace_all, stats, seed + sb, maxp, sb, "routing" if len3 else "all", 1)
             if p.returncode != 0:
                 raise Infra("driver failed:\n" + p.stdout[-3000:])
             st = json.load(open(stats))
@@ -373,13 +394,14 @@ def check_routing(prop, tier, seed, replay):
                         fo.write(line)
             bad, secs, ts = validate(trace, "RoutingTrace", FIFO_TCFG, shards, work)
             tstates += ts
-            import check_sys
-            gbad, gsecs, gts = validate(trace_all, "GorumsTrace", check_sys.TCFG, shards, work)
-            tstates += gts
-            sysprog_sections += len(gsecs)
-            sysprog_events += sum(len(x) for x in gsecs)
+            if not len3:
+                import check_sys
+                gbad, gsecs, gts = validate(trace_all, "GorumsTrace", check_sys.TCFG, shards, work)
+                tstates += gts
+                sysprog_sections += len(gsecs)
+                sysprog_events += sum(len(x) for x in gsecs)
+                bad = bad + [(t, "Gorums:" + ev, rec) for t, ev, rec in gbad if ev not in ("ProgEnd", "Routers")]
             os.remove(trace_all)
-            bad = bad + [(t, "Gorums:" + ev, rec) for t, ev, rec in gbad if ev not in ("ProgEnd", "Routers")]
             total_exec += st["executed"]
             total_calls += st["calls"]
             nontriv += st["distinct_nontrivial"]
